@@ -143,8 +143,11 @@ def run(F, R, tier):
     for n in cs["_nodes"]:
         if n.get("k") == "MethodCall" and n["name"] in ("add_child_id", "add_member"):
             g = guards_at(F, n)
-            static_true = any(x.kind == "cond" and x.pol and expr_text(x.node) == "is_static" for x in g)
-            static_false = any(x.kind == "cond" and not x.pol and expr_text(x.node) == "is_static" for x in g)
+            def is_static_flag(e):
+                e = peel(e)
+                return e.get("res") == "local" and tyc(F, e, "bool") and any(pb.get("lid") == e.get("lid") and pb["_p"].get("pk") == "tuple" for pb in cs["_nodes"] if pb.get("k") == "Pat" and pb.get("pk") == "bind")
+            static_true = any(x.kind == "cond" and x.pol and is_static_flag(x.node) for x in g)
+            static_false = any(x.kind == "cond" and not x.pol and is_static_flag(x.node) for x in g)
             want_static = n["name"] == "add_child_id"
             R.ob("C16-a", "%s happens on the %s path" % (n["name"], "static" if want_static else "instance"), (static_true and not static_false) if want_static else (static_false and not static_true),
                  "%s is not guarded by is_static == %s" % (n["name"], want_static), where(n))
@@ -234,7 +237,7 @@ def run(F, R, tier):
 
     # ---------------- C16-c ------------------------------------------------
     ex = F.body("symbols::cross_module::exports_and_re_exports_inner")
-    ins = [n for n in ex["_nodes"] if n.get("k") == "MethodCall" and n["name"] == "insert" and peel(n["recv"]).get("name") == "resolved"]
+    ins = [n for n in ex["_nodes"] if n.get("k") == "MethodCall" and n["name"] == "insert" and peel(n["recv"]).get("res") == "local" and tyc(F, n["recv"], "IndexMap<std::string::String, symbols::cross_module::ResolvedExportOrReExportAllPath")]
     R.floor("C16-c inserts into the resolved export map", len(ins), 2)
     star_ins = [n for n in ins if any((ctor_of(x) or "").endswith("::ReExportAllPath") for x in walk(n))]
     R.ob("C16-c", "star re-export insert found", len(star_ins) == 1, "shape changed", ex["file"])
@@ -243,7 +246,7 @@ def run(F, R, tier):
         gs = guards_at(F, n)
         key = peel_value(n["args"][0])
         not_default = any(x.kind == "cond" and x.node.get("k") == "Binary" and ((x.node["op"] == "!=" and x.pol) or (x.node["op"] == "==" and not x.pol)) and peel(x.node["r"]).get("v") == "default" and peel_value(x.node["l"]).get("lid") == key.get("lid") for x in gs)
-        own_wins = any(x.kind == "cond" and not x.pol and x.node.get("k") == "MethodCall" and x.node["name"] == "contains_key" and peel(x.node["recv"]).get("name") == "resolved" and peel_value(x.node["args"][0]).get("lid") == key.get("lid") for x in gs)
+        own_wins = any(x.kind == "cond" and not x.pol and x.node.get("k") == "MethodCall" and x.node["name"] == "contains_key" and peel(x.node["recv"]).get("lid") == peel(n["recv"]).get("lid") and peel_value(x.node["args"][0]).get("lid") == key.get("lid") for x in gs)
         R.ob("C16-c", "`default` is excluded from star re-exports", not_default, "star re-export insert is not guarded by name != \"default\"", where(n))
         R.ob("C16-c", "own (and earlier) exports take precedence over star re-exports", own_wins, "star re-export insert is not guarded by !resolved.contains_key(&name): a re-exported name would overwrite the module's own export", where(n))
         for o in own_ins:
